@@ -136,6 +136,20 @@ func (g *Gen) coef() *big.Int {
 			m = 1 + int64(g.R.U64()>>1)%(int64(1)<<uint(min(room, 20)))
 		}
 		c.Lsh(big.NewInt(m), j)
+	case 10: // the leading digits of the decimal expansion of 2^k + j*2^64:
+		// printed positionally with enough trailing zeros, the numeral read
+		// back digit by digit crosses a binary word boundary of an accumulator
+		k := []uint{64, 128, 128, 192}[g.R.N(4)]
+		x := new(big.Int).Lsh(big.NewInt(1), k)
+		x.Add(x, new(big.Int).Lsh(big.NewInt(int64(g.R.N(100))), 64))
+		ds := x.String()
+		if l := g.R.Range(17, 34); l < len(ds) {
+			ds = ds[:l]
+		}
+		if len(ds) > 34 {
+			ds = ds[:34]
+		}
+		c.SetString(ds, 10)
 	default:
 		c.SetString(g.digits(g.coefLen()), 10)
 	}
